@@ -93,7 +93,7 @@ def gen_cases(tier, seed):
             yield {"impl": ("sync", "async")[j % 2], "first": {"nkeys": 2, "outcome": ["key1", "pubkey"][j % 2], "bad": None, "cb": "rec"}, "maxdata": 4096, "strays": 0, "second": None, "seed": "%d:r%d" % (seed, j), "real": True}
 
 
-def one_connect(sess, cfg, maxdata, strays, stats, rng, real_keys=None):
+def one_connect(sess, cfg, maxdata, strays, stats, rng, real_keys=None, kid_base=0):
     """configure the device, call connect(), compare with the model; returns violations"""
     viol = []
     sim = sess.sim
@@ -102,7 +102,7 @@ def one_connect(sess, cfg, maxdata, strays, stats, rng, real_keys=None):
     if real_keys is not None:
         keys = real_keys
     else:
-        keys = [KeyStub(i + 1, pub_as_str=(rng.random() < 0.3)) for i in range(nkeys)]
+        keys = [KeyStub(kid_base + i + 1, pub_as_str=(rng.random() < 0.3)) for i in range(nkeys)]     # (a later connect() on the same object is given OTHER keys)
     accept = int(oc[3:]) if oc.startswith("key") else None
 
     if real_keys is None:
@@ -188,7 +188,7 @@ def one_connect(sess, cfg, maxdata, strays, stats, rng, real_keys=None):
             if cfg["cb"] == "raise":
                 result = ("exc", "RuntimeError")
             else:
-                pub = keys[0].GetPublicKey() if real_keys is not None else ("PUBKEY-1 user@host").encode()
+                pub = keys[0].GetPublicKey() if real_keys is not None else ("PUBKEY-%d user@host" % keys[0].kid).encode()
                 if isinstance(pub, str):
                     pub = pub.encode()
                 exp.append(("AUTH", wire.AUTH_RSAPUBLICKEY, 0, bytes(pub) + b"\0"))
@@ -327,7 +327,7 @@ def run_case(case):
             second = dict(case["second"])
             if rng.random() < 0.25:
                 second["tfault"] = rng.choice(["close", "connect"])
-            v, out, result = one_connect(sess, second, md2, rng.randrange(len(STRAYS)), stats, rng)
+            v, out, result = one_connect(sess, second, md2, rng.randrange(len(STRAYS)), stats, rng, kid_base=rng.choice([0, 10, 10]))
             stats["second_connects"] += 1
             for x in v:
                 x["detail"] = "second connect on the same object: " + x["detail"]
